@@ -327,9 +327,20 @@ def error_discipline(repo, res):
     for m in ("__getitem__", "__setitem__"):
         f = us.func(f"UnitSystem.{m}")
         res.fn(f)
-        rs = [n for n in walk_no_nested(f.node) if isinstance(n, ast.Raise)]
-        guards = [n for n in walk_no_nested(f.node) if isinstance(n, ast.If) and any(x in rs for x in n.body)]
-        ok = len(rs) == 1 and is_raise_of(rs[0], "MissingMKSCurrent") and len(guards) == 1 and "cmks in key.free_symbols" in norm(guards[0].test) and "self.units_map[cmks] is None" in norm(guards[0].test)
+        # on paths (whatever the layout of the guard): a dimension with current in a system without a current unit
+        # always ends in MissingMKSCurrent, and that refusal happens only then
+        ok = True
+        n_ref = 0
+        for p_ in enum_paths(f.body):
+            fm_ = dict((t, tr) for t, tr, _ in path_facts(p_))
+            both = fm_.get("cmks in key.free_symbols") is True and fm_.get("self.units_map[cmks] is None") is True
+            refused = p_[-1][0] == "raise" and is_raise_of(p_[-1][1], "MissingMKSCurrent")
+            if both:
+                n_ref += 1
+                ok &= refused
+            elif refused:
+                ok = False
+        ok &= n_ref >= 1
         res.check(ok, f"UnitSystem.{m}", f.where(), "a dimension containing current in a system without a current unit raises MissingMKSCurrent", rid=r3)
 
 
